@@ -79,9 +79,25 @@ pub fn decodes(f: &[u8]) -> bool {
     Message::from_bytes((f, 0)).is_ok()
 }
 
+thread_local! {
+    /// how an arrival's millisecond index becomes the f64 timestamp (in-process strata only): 0 = mid-millisecond,
+    /// 1 = the decimal value ms / 1000 (what a receiver with a millisecond clock reports; ts * 1e3 may fall just below
+    /// the integer), 2 = ms plus a sub-millisecond part
+    pub static CLOCK_STYLE: std::cell::Cell<u8> = const { std::cell::Cell::new(0) };
+}
+
 pub fn ts_of(ms: u64) -> f64 {
-    // mid-millisecond, so that (ts * 1e3) as u128 == ms exactly despite binary rounding
-    (ms as f64 + 0.4) / 1000.0
+    match CLOCK_STYLE.with(|c| c.get()) {
+        // mid-millisecond, so that (ts * 1e3) as u128 == ms exactly despite binary rounding
+        0 => (ms as f64 + 0.4) / 1000.0,
+        1 => ms as f64 / 1000.0,
+        _ => (ms as f64 + (h64(&ms) % 1000) as f64 / 1000.0) / 1000.0,
+    }
+}
+
+/// the implementation's own clock for an arrival: `(timestamp * 1e3) as u128` (section 4: that clock is the clock)
+pub fn clk(ms: u64) -> u64 {
+    (ts_of(ms) * 1e3) as u64
 }
 
 #[derive(Clone, Debug, PartialEq)]
@@ -199,7 +215,7 @@ fn canon(mut v: Vec<Record>) -> Vec<Record> {
 
 pub fn check_hist_caps(ctx: &Ctx, hist: &[Arrival], window: u32, frames: &[Vec<u8>], decodable: &[bool], caps: Caps) -> Check {
     ctx.eval();
-    let rep = json!({"kind": "dedup", "window": window, "caps": [caps.0, caps.1], "history": hist.iter().map(|a| json!([a.frame, a.rx, a.ms])).collect::<Vec<_>>()});
+    let rep = json!({"kind": "dedup", "window": window, "caps": [caps.0, caps.1], "clock_style": CLOCK_STYLE.with(|c| c.get()), "history": hist.iter().map(|a| json!([a.frame, a.rx, a.ms])).collect::<Vec<_>>()});
     let fail = |sig: &str, d: String| Failure::new(format!("c10:{sig}"), d, rep.clone());
     let got = run_real(hist, window, frames, caps).map_err(|p| fail("panic", p))?;
     // ---- invariants that need no model
@@ -256,7 +272,7 @@ pub fn check_hist_caps(ctx: &Ctx, hist: &[Arrival], window: u32, frames: &[Vec<u
     // ---- ordered-arrival guarantees
     let monotone = hist.windows(2).all(|w| w[0].ms <= w[1].ms);
     if monotone {
-        let first_ms = |r: &Record| hist[r.receptions[0] as usize].ms;
+        let first_ms = |r: &Record| clk(hist[r.receptions[0] as usize].ms);
         let mut per_frame: std::collections::HashMap<&[u8], Vec<u64>> = Default::default();
         for r in &got {
             per_frame.entry(r.frame.as_slice()).or_default().push(first_ms(r));
@@ -398,7 +414,17 @@ pub fn run(ctx: &Ctx) {
         // by 1000 (windows of up to 450 s, times up to 10^11 ms), so that no width of the millisecond arithmetic is
         // only ever exercised on small values
         let clock = prop_oneof![3 => Just((0u64, 1u64)), 2 => Just((1_790_000_000_000u64, 1u64)), 1 => Just((4_294_967_296_000u64 + 5, 1u64)), 1 => Just((0u64, 1000u64)), 1 => Just((1_790_000_000_000u64, 1000u64))];
-        run_prop(ctx, &format!("random-{s}"), n / shards, (hist, proptest::sample::select(vec![0u32, 1, 2, 5, 400, 450]), caps, clock), |(h, w, caps, (base, scale))| {
+        let style = prop_oneof![3 => Just(0u8), 2 => Just(1u8), 1 => Just(2u8)];
+        run_prop(ctx, &format!("random-{s}"), n / shards, (hist, proptest::sample::select(vec![0u32, 1, 2, 5, 50, 400, 450]), caps, clock, style), |(h, w, caps, (base, scale), style)| {
+            struct Reset;
+            impl Drop for Reset {
+                fn drop(&mut self) {
+                    CLOCK_STYLE.with(|c| c.set(0));
+                }
+            }
+            let _reset = Reset;
+            CLOCK_STYLE.with(|c| c.set(*style));
+            ctx.class(["timestamps mid-millisecond", "timestamps = ms / 1000 (decimal millisecond clock)", "timestamps with sub-millisecond parts"][*style as usize]);
             let h = &h.iter().map(|a| Arrival { ms: base + a.ms * scale, ..*a }).collect::<Vec<_>>();
             let w = &(*w * *scale as u32);
             ctx.class(match (*base, *scale) {
@@ -970,5 +996,7 @@ pub fn replay(ctx: &Ctx, v: &Value) {
         return;
     }
     let caps = (v["caps"][0].as_u64().unwrap_or(0) as usize, v["caps"][1].as_u64().unwrap_or(0) as usize);
+    CLOCK_STYLE.with(|c| c.set(v["clock_style"].as_u64().unwrap_or(0) as u8));
     ctx.judge(check_hist_caps(ctx, &hist, w, &frames, &decodable, caps));
+    CLOCK_STYLE.with(|c| c.set(0));
 }
